@@ -242,6 +242,14 @@ class CallMixin:
             else:
                 self.effect("call-unknown", site, st, fr, node=n, callee=self.g.show(fn, 3))
             return n
+        if op == "State" and fn.args and fn.args[0].op == "Obj" and isinstance(fn.attr, str) and \
+                fn.attr in X.PURE_METHODS and (fn.args[0].extra or {}).get("cls") is not None and \
+                self.ext_bases(fn.args[0].extra["cls"]):
+            # a method the object inherits from a library base class (pydantic's model_dump, ...), pure by its name
+            kwn = tuple(sorted(kw))
+            args = [fn.args[0]] + [self.freeze(self.res(p, st), st) for p in pos] + \
+                [self.freeze(self.res(kw[k], st), st) for k in kwn]
+            return self.mk("MCall", args, (fn.attr, len(pos), kwn), site)
         return self.generic_call(fn, pos, kw, st, fr, site, "call-unknown")
 
     def generic_call(self, fn, pos, kw, st, fr, site, why) -> Node:
@@ -906,6 +914,14 @@ class CallMixin:
             lo = self.mk("ListOf", (recv.args[1],), None, site)
             lo.extra = {"bag": recv}
             return lo
+        lib_init = False
+        if recv.op == "Super" and name == "__init__":
+            inst = recv.args[0]
+            if inst.op == "Obj" and inst.extra.get("cls") is not None and \
+                    all(X.category(b) in ("pure", "lib") for b in self.ext_bases(inst.extra["cls"])):
+                # constructor of a library base class (astropy's NDData, ...): fills the object's own fields - which
+                # read back as unknown state of that object - and does nothing else
+                lib_init = True
         args = [recv] + [self.freeze(self.res(p, st), st) for p in pos]
         kwn = tuple(sorted(k for k in kw if k != "**"))
         args += [self.freeze(self.res(kw[k], st), st) for k in kwn]
@@ -925,7 +941,7 @@ class CallMixin:
                         callee="." + name)
         elif name in X.IO_READ_METHODS:
             self.effect("io", site, st, fr, node=n, name=name, recv=recv_id, callee="." + name)
-        elif name in X.PURE_METHODS or name in X.VIEW_METHODS:
+        elif name in X.PURE_METHODS or name in X.VIEW_METHODS or lib_init:
             pass
         else:
             self.effect("mcall-unknown", site, st, fr, node=n, name=name, recv=recv_id)
@@ -1115,7 +1131,7 @@ class CallMixin:
             return self.mk("Dict", [kw[k] for k in kw], tuple(("k", k) for k in kw), site)
         if q == "builtins.dict" and len(P) == 1 and P[0].op == "Dict" and not kw:
             return self.mk("Dict", P[0].args, P[0].attr, site)
-        if q == "builtins.dict" and len(P) == 1 and not kw and P[0].op in ("List", "Tuple", "DictItems"):
+        if q == "builtins.dict" and len(P) == 1 and not kw and P[0].op in ("List", "Tuple", "DictItems", "Zip", "Enumerate"):
             pairs = self.known_items(P[0], limit=400)
             if pairs is not None and all(p_.op in ("Tuple", "List") and len(p_.args) == 2 and
                                          self.const_key(p_.args[0]) is not self.NOKEY for p_ in pairs):
@@ -1372,8 +1388,10 @@ class CallMixin:
                 operands.append(alloc)
                 chunks.append(ch)
             else:
+                # the chunk of a supplied operand names its iterator (extra["nditer"]): a value computed from chunks is
+                # recognisably the product of that loop (rules: common.iterators_in)
                 ch = self.mk("NdChunk", (ov,), k, site)
-                ch.extra = {"view_of": o}
+                ch.extra = {"view_of": o, "nditer": n}
                 operands.append(o)
                 chunks.append(ch)
         n.extra = {"operands": tuple(operands), "chunks": tuple(chunks),
